@@ -447,16 +447,16 @@ pub fn for_each_history(cfg: &Cfg, tag: &str, f: &(dyn Fn(&[u8], &[Op], &mut Sta
             );
         }
     }
-    let nr = cfg.pick(300_000, 4_000_000);
+    let nr = cfg.pick(300_000, 2_000_000);
     let s = run_strategy(&s_history(), cfg.seed, &format!("{tag}-g7"), nr, |(start, ops_), st| f(start, ops_, st, Count::Hash));
     total = total.merge(s);
     total.subspace("G7 random histories, length 0-40, random start (proptest)", nr, false);
     // histories that stay on one collection (deep add / remove / query interplay on it)
-    let nf = cfg.pick(200_000, 3_000_000);
+    let nf = cfg.pick(200_000, 1_500_000);
     let s = run_strategy(&s_focused_history(), cfg.seed, &format!("{tag}-g7-focused"), nf, |(start, ops_), st| f(start, ops_, st, Count::Hash));
     total = total.merge(s);
     total.subspace("G7 focused histories: 2-30 operations on a single collection, random start (proptest)", nf, false);
-    let nb = cfg.pick(6_000, 120_000);
+    let nb = cfg.pick(6_000, 40_000);
     let s = run_strategy(&s_bulk_history(), cfg.seed, &format!("{tag}-g7-bulk"), nb, |(start, ops_), st| f(start, ops_, st, Count::Hash));
     total = total.merge(s);
     total.subspace("G7 bulk histories: 40-160 operations on one collection with generated arguments, removals / queries of earlier insertions (proptest)", nb, false);
